@@ -388,6 +388,9 @@ func (vc *VC) zeroSpec(s Sort) Term {
 // ---------- obligations ----------
 
 func (vc *VC) oblige(st *State, goal Term, label, kind, site string, props []string, clause, callee string) {
+	if kind == "termination" && len(vc.specs.TerminationProps) > 0 {
+		props = unionProps(props, vc.specs.TerminationProps)
+	}
 	if goal == "true" {
 		// trivially discharged: still counted (cheap), but no solver call needed
 		vc.obls = append(vc.obls, &Obligation{Func: vc.key, Label: label, Kind: kind, Site: site, Props: props, Path: pathString(st.path), Clause: clause, Callee: callee,
@@ -1167,12 +1170,18 @@ func (vc *VC) terminationCheck(st *State, li *loopInfo) {
 	if li.spec != nil && li.spec.Decreases != nil {
 		return
 	}
+	bounded := func(why string) {
+		// counted (syntactically discharged) so that the evidence shows what the termination claim rests on
+		vc.oblige(st, "true", fmt.Sprintf("loop%d:terminates", li.ordinal), "termination", posString(vc.w, vc.loopPos(li)), vc.props(), why, "")
+	}
 	for _, ins := range li.header.Instrs {
 		if phi, ok := ins.(*ssa.Phi); ok && phi.Comment == "rangeindex" && vc.rangeLimit(li, phi) != nil {
+			bounded("range loop over a slice, array or integer: bounded by construction")
 			return
 		}
 		if nx, ok := ins.(*ssa.Next); ok {
 			if _, isRange := nx.Iter.(*ssa.Range); isRange {
+				bounded("range loop over a map or string: bounded by construction")
 				return
 			}
 		}
